@@ -161,18 +161,32 @@ func DriveMapIntInt(n, steps int) {
 	for i := range vals {
 		vals[i] = rt.NondetInt(1)
 	}
-	del := make([]int, steps) // per iteration: n = no deletion, j<n = delete key j*10
+	// per iteration: j<n = delete key j*10, n = nothing, n+1 = create a new key, n+2 = overwrite key 0
+	del := make([]int, steps)
+	nv := make([]int, steps)
 	for i := range del {
-		del[i] = rt.Choose(2, n+1)
+		del[i] = rt.Choose(2, n+3)
+		nv[i] = rt.NondetInt(3)
+	}
+	mutate := func(m map[int]int, step int) {
+		if step >= steps {
+			return
+		}
+		switch {
+		case del[step] < n:
+			delete(m, del[step]*10)
+		case del[step] == n+1:
+			m[1000+step] = nv[step] // an entry created during the loop may be produced or skipped
+		case del[step] == n+2:
+			m[0] = nv[step]
+		}
 	}
 	m1 := mk(vals)
 	step := 0
 	for k, v := range m1 {
 		rt.EmitTo(1, tagK, k)
 		rt.EmitTo(1, tagV, v)
-		if step < steps && del[step] < n {
-			delete(m1, del[step]*10)
-		}
+		mutate(m1, step)
 		step++
 	}
 	rt.EmitTo(1, tagEnd, len(m1))
@@ -183,9 +197,7 @@ func DriveMapIntInt(n, steps int) {
 		p := it.Current()
 		rt.EmitTo(0, tagK, p.Key)
 		rt.EmitTo(0, tagV, p.Val)
-		if step < steps && del[step] < n {
-			delete(m0, del[step]*10)
-		}
+		mutate(m0, step)
 		step++
 	}
 	rt.EmitTo(0, tagEnd, len(m0))
